@@ -7,7 +7,7 @@ package sqlx
 // a *sql.Tx to the driver, so a duplicated termination is invisible to the recording
 // driver; here every Commit()/Rollback() call the epilogue makes is counted directly.
 // This is the only C11 file that touches unexported identifiers (transactOnConn, trans,
-// beginnable, Session embedding).
+// beginnable, Session embedding; logSQL / logSlowSQL / slowThreshold for C11SetLogSwitches).
 
 import (
 	"context"
@@ -15,9 +15,25 @@ import (
 	"errors"
 	"fmt"
 	"testing"
+	"time"
 
 	"verif.local/vk"
 )
+
+// C11SetLogSwitches puts the package's statement-logging switches (what DisableStmtLog /
+// DisableLog / SetSlowThreshold set, none of which can be undone through the public API)
+// into the given state and returns a function that restores the previous one.
+func C11SetLogSwitches(stmtLog, slowLog bool, threshold time.Duration) (restore func()) {
+	ps, pl, pt := logSQL.True(), logSlowSQL.True(), slowThreshold.Load()
+	logSQL.Set(stmtLog)
+	logSlowSQL.Set(slowLog)
+	slowThreshold.Set(threshold)
+	return func() {
+		logSQL.Set(ps)
+		logSlowSQL.Set(pl)
+		slowThreshold.Set(pt)
+	}
+}
 
 type c11SeamTx struct {
 	Session              // nil: the bodies of this test never touch the session
